@@ -42,7 +42,7 @@ func (serFactory) IsInterfaceNil() bool     { return false }
 
 type adapterComp struct{}
 
-func init() { register("adapter", adapterComp{}) }
+func init()                        { register("adapter", adapterComp{}) }
 func (adapterComp) Parallel() bool { return true }
 
 type adapterRunner struct {
@@ -332,7 +332,7 @@ func (f *faultyPersister) Remove(k []byte) error {
 
 type unitComp struct{}
 
-func init() { register("unit", unitComp{}) }
+func init()                     { register("unit", unitComp{}) }
 func (unitComp) Parallel() bool { return true }
 
 type unitRunner struct {
@@ -340,13 +340,13 @@ type unitRunner struct {
 	reads int
 	violBuf
 	tagBuf
-	u     *storageUnit.Unit
-	c     types.Cacher
-	p     *faultyPersister
-	dir   string
-	ack   map[string][]byte // acknowledged writes (C16 oracle)
-	last  string
-	keys  map[string]bool
+	u    *storageUnit.Unit
+	c    types.Cacher
+	p    *faultyPersister
+	dir  string
+	ack  map[string][]byte // acknowledged writes (C16 oracle)
+	last string
+	keys map[string]bool
 }
 
 func (unitComp) NewRunner(begin string) Runner {
@@ -599,7 +599,7 @@ func (unitComp) Gen(rng *rand.Rand, tier string) [][]string {
 
 type fifoComp struct{}
 
-func init() { register("fifo", fifoComp{}) }
+func init()                     { register("fifo", fifoComp{}) }
 func (fifoComp) Parallel() bool { return true }
 
 type fifoRunner struct {
@@ -920,7 +920,7 @@ func (fifoComp) Gen(rng *rand.Rand, tier string) [][]string {
 
 type timeComp struct{}
 
-func init() { register("timecache", timeComp{}) }
+func init()                     { register("timecache", timeComp{}) }
 func (timeComp) Parallel() bool { return true }
 
 type tcIface interface {
@@ -938,16 +938,16 @@ type tcIface interface {
 
 type tcPlain struct{ c *timecache.TimeCache }
 
-func (t tcPlain) add(k string) error                       { return t.c.Add(k) }
-func (t tcPlain) addSpan(k string, d time.Duration) error  { return t.c.AddWithSpan(k, d) }
-func (t tcPlain) upsert(k string, d time.Duration) error   { return t.c.Upsert(k, d) }
-func (t tcPlain) put(k string, v []byte)                   { _ = t.c.Add(k) }
-func (t tcPlain) hoa(k string, v []byte) (bool, bool)      { return false, false }
-func (t tcPlain) rm(k string)                              {}
-func (t tcPlain) sweep()                                   { t.c.Sweep() }
-func (t tcPlain) has(k string) bool                        { return t.c.Has(k) }
-func (t tcPlain) clear()                                   {}
-func (t tcPlain) close()                                   {}
+func (t tcPlain) add(k string) error                      { return t.c.Add(k) }
+func (t tcPlain) addSpan(k string, d time.Duration) error { return t.c.AddWithSpan(k, d) }
+func (t tcPlain) upsert(k string, d time.Duration) error  { return t.c.Upsert(k, d) }
+func (t tcPlain) put(k string, v []byte)                  { _ = t.c.Add(k) }
+func (t tcPlain) hoa(k string, v []byte) (bool, bool)     { return false, false }
+func (t tcPlain) rm(k string)                             {}
+func (t tcPlain) sweep()                                  { t.c.Sweep() }
+func (t tcPlain) has(k string) bool                       { return t.c.Has(k) }
+func (t tcPlain) clear()                                  {}
+func (t tcPlain) close()                                  {}
 
 type tcPeer struct {
 	c    *timecache.TimeCache
@@ -971,16 +971,22 @@ func (t tcPeer) close()                                  {}
 
 type tcCacher struct{ c types.Cacher }
 
-func (t tcCacher) add(k string) error                      { t.c.Put([]byte(k), []byte{}, 0); return nil }
-func (t tcCacher) addSpan(k string, d time.Duration) error { t.c.Put([]byte(k), []byte{}, 0); return nil }
-func (t tcCacher) upsert(k string, d time.Duration) error  { t.c.Put([]byte(k), []byte{}, 0); return nil }
-func (t tcCacher) put(k string, v []byte)                  { t.c.Put([]byte(k), v, 0) }
-func (t tcCacher) hoa(k string, v []byte) (bool, bool)     { return t.c.HasOrAdd([]byte(k), v, 0) }
-func (t tcCacher) rm(k string)                             { t.c.Remove([]byte(k)) }
-func (t tcCacher) sweep()                                  {}
-func (t tcCacher) has(k string) bool                       { return t.c.Has([]byte(k)) }
-func (t tcCacher) clear()                                  { t.c.Clear() }
-func (t tcCacher) close()                                  { _ = t.c.Close() }
+func (t tcCacher) add(k string) error { t.c.Put([]byte(k), []byte{}, 0); return nil }
+func (t tcCacher) addSpan(k string, d time.Duration) error {
+	t.c.Put([]byte(k), []byte{}, 0)
+	return nil
+}
+func (t tcCacher) upsert(k string, d time.Duration) error {
+	t.c.Put([]byte(k), []byte{}, 0)
+	return nil
+}
+func (t tcCacher) put(k string, v []byte)              { t.c.Put([]byte(k), v, 0) }
+func (t tcCacher) hoa(k string, v []byte) (bool, bool) { return t.c.HasOrAdd([]byte(k), v, 0) }
+func (t tcCacher) rm(k string)                         { t.c.Remove([]byte(k)) }
+func (t tcCacher) sweep()                              {}
+func (t tcCacher) has(k string) bool                   { return t.c.Has([]byte(k)) }
+func (t tcCacher) clear()                              { t.c.Clear() }
+func (t tcCacher) close()                              { _ = t.c.Close() }
 
 type timeRunner struct {
 	violBuf
